@@ -95,12 +95,12 @@ def _tla_json(v):
     return json.loads(v)
 
 
-def dump_vars(module, cfg, names, workers=4):
+def dump_vars(module, cfg, names, workers=4, timeout=900):
     """TLC -dump of module/cfg; returns (result, [ {name: value} ]) for the
     variables in `names` (records -> dict, sequences -> list)."""
     wd = tlc.workdir('c18dump')
     try:
-        res = tlc.run_tlc(SPEC, module, cfg, workers=workers, extra=['-dump', os.path.join(wd, 'st')])
+        res = tlc.run_tlc(SPEC, module, cfg, workers=workers, timeout=timeout, extra=['-dump', os.path.join(wd, 'st')], jvm_opts=JVM)
         if res.violated:
             raise tlc.MachineryError('dump run %s/%s violates %s' % (module, cfg, res.violated))
         with open(os.path.join(wd, 'st.dump')) as f:
@@ -684,23 +684,28 @@ def run(tier, replay=None):
 
     # ------------------------------------------------------------------
     # 1. TLC jobs, side by side (a JVM start costs more than most of them)
-    def mc(module, cfg, workers):
-        return lambda: tlc.model_check(SPEC, module, cfg, workers=workers, coverage=True, jvm_opts=JVM)
+    tmo = 600 if quick else 3000      # generous: a loaded machine must not turn into a machinery error
+
+    def mc(module, cfg, workers, coverage=True):
+        return lambda: tlc.model_check(SPEC, module, cfg, workers=workers, coverage=coverage, jvm_opts=JVM, timeout=tmo)
 
     lvars = ('variant', 'hist', 'out', 'bad')
     jobs = {
-        'lines_server': mc('Lines', 'MC_Lines_server%s.cfg' % sfx, 4 if quick else 8),
-        'hist_irc': lambda: dump_vars('IrcMsg', 'HIST_IrcMsg%s.cfg' % sfx, ('variant', 'stage', 'cs', 'out', 'bad'), workers=4),
-        'hist_server': lambda: dump_vars('Lines', 'HIST_Lines_server%s.cfg' % sfx, lvars, workers=2 if quick else 4),
-        'irc_strict_a': mc('IrcMsg', 'MC_IrcMsg_strict_a%s.cfg' % sfx, 2 if quick else 6),
+        'lines_server': mc('Lines', 'MC_Lines_server%s.cfg' % sfx, 4 if quick else 8, coverage=quick),
+        'hist_irc': lambda: dump_vars('IrcMsg', 'HIST_IrcMsg%s.cfg' % sfx, ('variant', 'stage', 'cs', 'out', 'bad'), workers=4, timeout=tmo),
+        'hist_server': lambda: dump_vars('Lines', 'HIST_Lines_server%s.cfg' % sfx, lvars, workers=2 if quick else 4, timeout=tmo),
     }
+    # quick: HIST_IrcMsg.cfg has the bounds of MC_IrcMsg_strict_a.cfg and checks the same invariants
+    # on its "strict" third, so that dump run *is* the exhaustive check of the reference serialiser
     if not quick:
+        jobs['irc_strict_a'] = mc('IrcMsg', 'MC_IrcMsg_strict_a_thorough.cfg', 6, coverage=False)
         # (quick: the two-socket model contains the one-socket behaviours - reads of socket 1 only)
-        jobs['lines_client'] = mc('Lines', 'MC_Lines_client_thorough.cfg', 6)
-        jobs['hist_client'] = lambda: dump_vars('Lines', 'HIST_Lines_client_thorough.cfg', lvars, workers=4)
-        jobs['irc_strict_b'] = mc('IrcMsg', 'MC_IrcMsg_strict_b_thorough.cfg', 6)
-        jobs['irc_strict_c'] = mc('IrcMsg', 'MC_IrcMsg_strict_c_thorough.cfg', 4)
-        jobs['lines_server3'] = mc('Lines', 'MC_Lines_server3_thorough.cfg', 6)
+        # coverage statistics only on the smaller runs (they slow TLC down a lot)
+        jobs['lines_client'] = mc('Lines', 'MC_Lines_client_thorough.cfg', 6, coverage=False)
+        jobs['hist_client'] = lambda: dump_vars('Lines', 'HIST_Lines_client_thorough.cfg', lvars, workers=4, timeout=tmo)
+        jobs['irc_strict_b'] = mc('IrcMsg', 'MC_IrcMsg_strict_b_thorough.cfg', 6, coverage=False)
+        jobs['irc_strict_c'] = mc('IrcMsg', 'MC_IrcMsg_strict_c_thorough.cfg', 4, coverage=True)
+        jobs['lines_server3'] = mc('Lines', 'MC_Lines_server3_thorough.cfg', 6, coverage=True)
     results = {}
     with ThreadPoolExecutor(max_workers=len(jobs)) as ex:
         futs = {name: ex.submit(fn) for name, fn in jobs.items()}
@@ -709,9 +714,11 @@ def run(tier, replay=None):
     tres = {n: (v[0] if isinstance(v, tuple) else v) for n, v in results.items()}
     lap('tlc jobs: ' + ', '.join('%s %.0fs' % (n, r.wall_s) for n, r in tres.items()))
 
-    mcs = [n for n in results if not n.startswith('hist_')]
+    mcs = [n for n in results if not n.startswith('hist_')] + ['hist_irc']
     for name in mcs:
-        dead = dead_actions(results[name])
+        if not _COV.search(tres[name].out):
+            continue                      # run without coverage statistics
+        dead = dead_actions(tres[name])
         if dead:
             raise tlc.MachineryError('vacuous model (%s): never taken: %s' % (name, dead))
     mc_states = sum(tres[n].distinct for n in mcs)
@@ -732,9 +739,12 @@ def run(tier, replay=None):
                 raise tlc.MachineryError('%s: TLC finds no %s in the "%s" variant (found %s): the model lost its teeth'
                                          % (job, clause, var, hits))
             teeth[var] = hits
-    if not any(st['variant'] == 'strict' and st['stage'] == 'done' and any(ln['k'] == 'wire' for ln in st['out'])
-               for st in results['hist_irc'][1]):
-        raise tlc.MachineryError('the strict reference serialiser of IrcMsg.tla never sends: vacuous')
+    # every action of IrcMsg.tla is alive in every variant: finished cases with arguments, sent and refused
+    for var in ('pinned', 'fixed', 'strict'):
+        done = [st for st in results['hist_irc'][1] if st['variant'] == var and st['stage'] == 'done']
+        sent = sum(1 for st in done if any(ln['k'] == 'wire' for ln in st['out']))
+        if not done or sent == 0 or sent == len(done) or not any(len(st['cs']['args']) >= 2 for st in done):
+            raise tlc.MachineryError('IrcMsg.tla variant %s is vacuous: %d cases, %d sent' % (var, len(done), sent))
 
     # ------------------------------------------------------------------
     # 2. line protocol: replay of TLC histories, enumerated cuts, random
@@ -824,22 +834,24 @@ def run(tier, replay=None):
         idx = list(range(len(traces)))
         rnd.shuffle(idx)
         muts = []
-        for i in idx[:nm * 3]:
+        for i in idx:
+            if len(muts) >= nm:
+                break
             m = mutate(rnd, traces[i])
             if m:
                 muts.append((i, m[0], m[1]))
         return muts
 
-    nm = 80 if quick else 500
+    nm = 150 if quick else 600
     lt = [t for _, t in line_traces]
     it = [t for _, t, _ in irc_runs]
     lm = with_mutants(lt, mutate_line_trace, nm)
     im = with_mutants(it, mutate_irc_trace, nm)
     with ThreadPoolExecutor(max_workers=2) as ex:
         fl = ex.submit(tlc.validate_traces, SPEC, 'LinesTrace', 'LinesTrace.cfg', lt + [m[1] for m in lm],
-                       shards=4 if quick else 8, jvm_opts=JVM)
+                       shards=3 if quick else 8, jvm_opts=JVM, timeout=tmo)
         fi = ex.submit(tlc.validate_traces, SPEC, 'IrcMsgTrace', 'IrcMsgTrace.cfg', it + [m[1] for m in im],
-                       shards=4 if quick else 8, jvm_opts=JVM)
+                       shards=3 if quick else 8, jvm_opts=JVM, timeout=tmo)
         lv, lstats = fl.result()
         iv, istats = fi.result()
     lap('traces judged: lines %.0fs, irc %.0fs' % (lstats['wall_s'], istats['wall_s']))
